@@ -423,7 +423,13 @@ class Index:
         if not any(d == 'property' or d.startswith('fitparam')
                    or d.startswith('derivedparam') for d in decs):
             return None
-        body = f.body()
+        # statements without effect on the value (logging, assignments to locals that are not returned) do not
+        # make a getter less trivial
+        body = [st for st in f.body() if not (
+            (isinstance(st, ast.Expr) and isinstance(st.value, ast.Call) and isinstance(st.value.func, ast.Attribute)
+             and st.value.func.attr in ('debug', 'info', 'warning', 'error', 'critical')) or
+            (isinstance(st, ast.Assign) and all(isinstance(t, ast.Name) for t in st.targets) and
+             isinstance(st.value, ast.Constant)) or isinstance(st, ast.Pass))]
         if len(body) == 1 and isinstance(body[0], ast.Return) \
                 and isinstance(body[0].value, ast.Attribute) \
                 and isinstance(body[0].value.value, ast.Name) \
